@@ -462,6 +462,9 @@ func (w *World) apply(op Op) (accepted bool) {
 			}
 			return nil
 		})
+	case "Migrate":
+		// the module migration the v8 upgrade runs for the crosschain modules (x/eth/module.go RegisterServices -> Migrator.Migrate)
+		return w.tryMsg(func(ctx sdk.Context) error { return crosschainkeeper.NewMigrator(w.x.Keeper).Migrate(ctx) })
 	case "NextBlock":
 		if err := w.c.NextBlock(); err != nil {
 			panic(fmt.Sprintf("block processing failed: %v", err))
